@@ -303,7 +303,7 @@ func TestVerif_C11(t *testing.T) {
 						cs := c11Case{Spec: spec, Passthrough: pass, Debug: d == 1, Preset: preset, Handler: prog, Req: q}
 						c11Run(r, l, cs, mws[d])
 						l.NontrivialKey(key, strconv.Itoa(d), jsonStr(prog), jsonStr(preset), reqString(q))
-						if l.Batch%2000 == 41 && pi == 1 && oi == 3 && ai == 3 {
+						if l.nsamp < 2 && pi == 1 && oi == 3 && ai == 3 && m == "OPTIONS" {
 							l.Sample("cell", cs)
 						}
 					}
